@@ -151,6 +151,7 @@ def main(argv=None):
     violations = []
     undecided = []
     errors = []
+    fallback_notes = []
     n_obl = n_dis = 0
     n_excluded = 0
     functions = []
@@ -166,8 +167,8 @@ def main(argv=None):
                                   "budget_s": 20 if tier == "quick" else 120, "fallback": True,
                                   "reason": err}, repo, seed, tier)
                 bounded.append(fb)
-                if P.get("strict", True):
-                    errors.append(f"{rep['target']}: {err}")
+                fallback_notes.append(f"{rep['target']}: outside the verifier's subset after this change ({err[:160]}); "
+                                      f"bounded native run of its contract: {'FAILED' if fb.get('found') else 'no failure found'}")
             else:
                 errors.append(f"{rep['target']}: {err}")
         for ob in rep["obligations"]:
@@ -277,9 +278,11 @@ def main(argv=None):
         for v in vio_lines:
             print(v)
         return 1
-    if undecided:
+    if undecided or fallback_notes:
         for r, o in undecided[:10]:
             print(f"UNDECIDED: {r['target']} {o['name']} path={o['path'][:6]}")
+        for n in fallback_notes:
+            print("UNDECIDED:", n)
         return 2
     return 0
 
